@@ -27,6 +27,8 @@ RULE = ("histories: adaptive random walks on the real ClientSession (2-6 GET/HEA
         "(True/False/two fingerprints), proxy address, proxy settings (header value, header name, URL user, URL password, "
         "second header) and server_hostname; (b) every run, exhaustively: for 6 base keys every single-component change "
         "(and no change), both orders, URL spelling variants: request 1 answered and pooled, request 2 (and 1 again) - the "
+        "all four schemes http/https/ws/wss on one explicit port (only TLS-or-not may separate connections), the second "
+        "request also as ws_connect (judged by the connection its handshake is written on) - the "
         "REAL ClientRequest.connection_key of every request pair in every history is compared with the keyspec the model "
         "uses (equal real keys for differing specs = violation), and the connection each request is written on is "
         "compared with the model and judged by the oracle. The recorded op list is replayed on the Lean model and the observable state after every op is "
@@ -42,7 +44,7 @@ TRUSTED_BASE = [
 ]
 ASSUMPTIONS = [
     "responses carry no Content-Encoding and bodies stay far below the read buffer limit (decompression and back-pressure pauses are C09/C08)",
-    "redirects are not followed (allow_redirects=False); no request bodies (early responses during an upload are closed by the writer's cancel path, not modelled); websocket payload parser not modelled (an upgraded connection only has to be never reused)",
+    "redirects are not followed (allow_redirects=False); request bodies only in the oracle-only Expect: 100-continue class (POST, 10-byte body; early final response without 100, 100 then final, 103+100+final, final with Connection: close; each in one read and unit by unit; then a same-key request): the transport notes when a request head follows a request whose announced body was not written - the Lean model has no request bodies; websocket payload parser not modelled (an upgraded connection only has to be never reused)",
 ]
 
 THEOREMS = [
@@ -85,11 +87,21 @@ def _fingerprint(which="a"):
     return _FP[which]
 
 
+SCHEMES = ["http", "https", "ws", "wss"]      # field 3 of the keyspec; bit 0 = TLS (what the connection key is about)
+
+
+def canon(spec):
+    """the keyspec as the connection key sees it: of the scheme only TLS-or-not matters"""
+    f = spec.split(".")
+    f[2] = str(int(f[2]) & 1)
+    return ".".join(f)
+
+
 def keyparams(spec, j, variant=0):
     """keyspec 'host.port.isSsl.ssl.proxy.proxyConf.sni' -> (url, kwargs) of session.get"""
-    host, port, is_ssl, ssl_, proxy, pconf, sni = [int(x) for x in spec.split(".")]
-    scheme = "https" if is_ssl else "http"
-    default = 443 if is_ssl else 80
+    host, port, sch, ssl_, proxy, pconf, sni = [int(x) for x in spec.split(".")]
+    scheme = SCHEMES[sch]
+    default = 443 if sch & 1 else 80
     name = f"h{host}"
     if variant & 1:
         name = name.upper()
@@ -110,6 +122,10 @@ def keyparams(spec, j, variant=0):
             kw["proxy_headers"] = dict(conf[1])
     if sni:
         kw["server_hostname"] = SNIS[sni]
+    if variant & 4:
+        kw["_ws"] = True
+    if variant & 8:
+        kw["_post"] = 10
     return url, kw
 
 
@@ -435,7 +451,7 @@ def oracle(ctx, R, units, case):
             prev = written.setdefault(c, [])
             if prev:
                 creator = prev[0][1]
-                if R.meta[creator]["key"] != R.meta[j]["key"]:
+                if canon(R.meta[creator]["key"]) != canon(R.meta[j]["key"]):
                     viol.append(("C06/wrong-key-reuse", f"request {j} ({R.meta[j]['key']}) written on connection {c} opened for {R.meta[creator]['key']}"))
                 # surplus of the previous exchange that is still undelivered does not count; only what arrived
                 if c in dirty:
@@ -492,6 +508,10 @@ def oracle(ctx, R, units, case):
             for un in units.get(c, []):
                 if un["kind"] == "101" and un["start"] + un["head"] <= e and un["start"] >= req_off.get((c, holder), 1 << 60):
                     dirty.setdefault(c, "upgraded")
+        elif k == "shortbody":
+            _, c, pj, seen, expected, j, opi = ev
+            viol.append(("C06/dirty-reuse/request-body-" + ("never-sent" if seen == 0 else "cut-short"),
+                         f"request {j} written on connection {c} although only {seen} of the {expected} body bytes announced by request {pj} were sent on it"))
         elif k == "peerclose":
             dirty.setdefault(ev[1], "peer-closed")
         elif k in ("cancel", "close"):
@@ -578,7 +598,7 @@ def oracle(ctx, R, units, case):
     for a in range(len(js)):
         for b in range(a + 1, len(js)):
             i, j = js[a], js[b]
-            si, sj = R.meta[i]["key"].split("."), R.meta[j]["key"].split(".")
+            si, sj = canon(R.meta[i]["key"]).split("."), canon(R.meta[j]["key"]).split(".")
             diff = [names[x] for x in range(7) if si[x] != sj[x]]
             same_real = R.real_keys[i] == R.real_keys[j]
             if same_real and diff:
@@ -615,7 +635,7 @@ def key_variants(rng):
         f = rng.randrange(7)
         if f == 0: k[0] = 2
         elif f == 1: k[1] = 8080
-        elif f == 2: k[2] = 1; k[1] = 443 if rng.random() < 0.5 else 80
+        elif f == 2: k[2] = rng.choice([1, 2, 3]); k[1] = 443 if rng.random() < 0.4 else 80
         elif f == 3: k[3] = rng.choice([1, 2, 3])
         elif f == 4: k[4] = rng.choice([1, 2])
         elif f == 5:
@@ -651,11 +671,17 @@ def key_pairs():
     vary(b5, 5, [4, 0]); vary(b5, 4, [1])
     for b in (b0, b1, b2, b3, b4, b5):
         out.append((b, list(b)))
+    # scheme component over all four schemes on one explicit port, so that only TLS-or-not differs:
+    # http/ws share connections, https/wss share connections, nothing else does
+    for s1 in range(4):
+        for s2 in range(s1, 4):
+            out.append(([1, 8080, s1, 0, 0, 0, 0], [1, 8080, s2, 0, 0, 0, 0]))
+    out.append(([1, 8080, 2, 0, 1, 1, 0], [1, 8080, 3, 0, 1, 1, 0]))      # ws / wss through a proxy
     sp = lambda k: ".".join(map(str, k))
     return [(sp(a), sp(b)) for a, b in out]
 
 
-def pair_walk(k1, k2, third):
+def pair_walk(k1, k2, third, stop_after_second_request=False):
     """request with k1, answered and read; then a request with k2 while that connection idles in the
     pool (and optionally k1 again): which connection does each one get?"""
     peer = Peer(random.Random(0))
@@ -673,6 +699,8 @@ def pair_walk(k1, k2, third):
         step = i % 3
         if step == 0:
             return ("Q", keys[n], False, b"")
+        if stop_after_second_request and n == 1:
+            return None        # (a ws_connect handshake is not answered: only the connection it is written on matters)
         c = last_conn(R, n)
         if c is None:
             return ("A", 1)
@@ -681,6 +709,36 @@ def pair_walk(k1, k2, third):
             data = bytes(peer.pending[c][:k]); del peer.pending[c][:k]
             return ("R", c, data)
         return ("D", n)
+    return next_op, peer
+
+
+def expect_walk(script, split):
+    """POST with a 10-byte body and Expect: 100-continue; the peer answers with the scripted units
+    (it has seen only the request head when it starts); the caller reads the response; then a GET with
+    the same key.  `split`: every unit in its own read."""
+    K = "1.80.0.0.0.0.0"
+    peer = Peer(random.Random(0))
+    st = {"i": 0, "plan": None}
+
+    def next_op(R):
+        i = st["i"]; st["i"] += 1
+        if i == 0:
+            return ("Q", K, False, b"")
+        if st["plan"] is None:
+            c = R.used[0][-1] if R.used[0] else None
+            if c is None:
+                return None
+            sizes = [peer.add(c, {"final": "cl", "final-close": "close"}.get(k, k), 4) for k in script]
+            chunks = sizes if split else [sum(sizes)]
+            st["plan"] = [("R", c, n) for n in chunks] + [("D", 0), ("A", 1), ("Q", K, False, b""), ("A", 1)]
+        if not st["plan"]:
+            return None
+        op = st["plan"].pop(0)
+        if op[0] == "R":
+            c, n = op[1], op[2]
+            data = bytes(peer.pending[c][:n]); del peer.pending[c][:n]
+            return ("R", c, data)
+        return op
     return next_op, peer
 
 
@@ -750,6 +808,7 @@ def run_fixed(case):
 def model_line(cfg, ops, fix=None):
     if fix is None:
         fix = bool(os.environ.get("C06_MODEL_FIX"))   # experiment: compare a patched tree with the model of the candidate repair
+    ops = [("Q", canon(o[1]), o[2], o[3]) if o[0] == "Q" else o for o in ops]
     return "run " + M.cfg_token(cfg, fix) + " " + " ".join(M.op_token(o) for o in ops)
 
 
@@ -829,16 +888,29 @@ def check(ctx):
     pcfg = {"forceClose": False, "keepalive": 120, "total": 0}
     for (ka, kb) in key_pairs():
         for (k1, k2) in ((ka, kb), (kb, ka)):
-            for variant in ((0, 3) if ctx.quick else (0, 1, 2, 3)):
-                next_op, peer = pair_walk(k1, k2, third=bool(variant & 1))
-                variants = {0: 0, 1: variant, 2: variant ^ 3}
+            for variant in ((0, 3, 4) if ctx.quick else (0, 1, 2, 3, 4, 7)):
+                # bit 2: the second request is a ws_connect (any scheme), judged by where its handshake is written
+                next_op, peer = pair_walk(k1, k2, third=bool(variant & 1) and not variant & 4,
+                                          stop_after_second_request=bool(variant & 4))
+                variants = {0: 0, 1: variant, 2: (variant ^ 3) & 3}
                 R = M.run_scenario(pcfg, next_op, lambda spec, j: keyparams(spec, j, variants.get(j, 0)))
                 units = {c: list(us) for c, us in peer.units.items()}
                 case, viol = evaluate(ctx, R, units, variants, pcfg, "keypair")
-                ctx.hit("keypair:" + ("same" if k1 == k2 else "differs"))
+                ctx.hit("keypair:" + ("same" if canon(k1) == canon(k2) else "differs") + (":ws_connect" if variant & 4 else ""))
                 recs.append((case, R.states, R.ops, viol)); lines.append(model_line(pcfg, R.ops))
                 del R
     flush()
+    # request bodies with Expect: 100-continue (oracle only: the model has no request bodies):
+    # early final response without 100 / 100 then final / interim 103 then 100 then final; then a same-key request
+    for script in (["final"], ["100", "final"], ["103", "100", "final"], ["final-close"]):
+        for split in (False, True):
+            next_op, peer = expect_walk(script, split)
+            variants = {0: 8, 1: 0}
+            R = M.run_scenario(pcfg, next_op, lambda spec, j: keyparams(spec, j, variants.get(j, 0)))
+            units = {c: list(us) for c, us in peer.units.items()}
+            evaluate(ctx, R, units, variants, pcfg, "expect100")
+            ctx.hit("expect100:" + "+".join(script))
+            del R
     for n, (cfg, seed, keyset, max_req, vs) in enumerate(jobs):
         if ctx.time_left() is not None and ctx.time_left() < 20:
             ctx.notes.append(f"time budget: stopped after {n} of {len(jobs)} histories")
